@@ -1748,7 +1748,7 @@ class Frame(object):
                 return Bytes([mk_slice(merge_consts(base.items), lo, hi)])
             return Bytes([mk_slice(render(base), lo, hi)])
         idx = self.ev(sl, st)
-        hit = dict_lookup(base, idx, st)
+        hit = dict_lookup(base, idx, st) if isinstance(getattr(node, 'ctx', None), ast.Load) else None
         if hit is not None and hit[0]:
             return hit[1]
         if isinstance(base, ListV) and isinstance(idx, Const) and isinstance(idx.value, int):
